@@ -589,7 +589,8 @@ impl<'tcx> Interp<'tcx> {
                         mir::AssertKind::Overflow(op, ..) => format!("{:?}", op),
                         _ => String::new(),
                     };
-                    self.sites.insert(key, Site { inst: bi.name.clone(), kind: format!("assert:{}{}", kind, opk), msg: snip.chars().take(120).collect(),
+                    let shape = self.assert_shape(bi, data, msg);
+                    self.sites.insert(key, Site { inst: bi.name.clone(), kind: format!("assert:{}{}", kind, opk), msg: snip.chars().take(120).collect(), shape,
                         site: site_str(self.tcx, term.source_info.span), visits: 0, violated: false, witness: String::new(), roots: BTreeSet::new(), ctxs: BTreeSet::new() });
                 }
                 TerminatorKind::Call { func, target, .. } => {
@@ -601,13 +602,51 @@ impl<'tcx> Interp<'tcx> {
                                 let snip = self.tcx.sess.source_map().span_to_snippet(term.source_info.span.source_callsite()).unwrap_or_default();
                                 pm = snip.split_whitespace().collect::<Vec<_>>().join(" ").chars().take(120).collect();
                             }
-                            self.sites.insert(key, Site { inst: bi.name.clone(), kind: format!("panic:{}", short_fn(&name)), msg: pm,
+                            self.sites.insert(key, Site { inst: bi.name.clone(), kind: format!("panic:{}", short_fn(&name)), msg: pm, shape: String::new(),
                                 site: site_str(self.tcx, term.source_info.span), visits: 0, violated: false, witness: String::new(), roots: BTreeSet::new(), ctxs: BTreeSet::new() });
                         }
                     }
                 }
                 _ => {}
             }
+        }
+    }
+
+    /// stable, source-text-free description of an Assert obligation
+    fn assert_shape(&self, bi: &BodyInfo<'tcx>, data: &mir::BasicBlockData<'tcx>, msg: &mir::AssertKind<Operand<'tcx>>) -> String {
+        let opd = |o: &Operand<'tcx>| -> String {
+            match o {
+                Operand::Constant(c) => match c.const_.try_eval_scalar_int(self.tcx, self.env) {
+                    Some(v) => format!("const {}", v.to_bits_unchecked()),
+                    None => format!("{:?}", c.const_.ty()),
+                },
+                _ => format!("{:?}", o.ty(&bi.body, self.tcx)),
+            }
+        };
+        match msg {
+            mir::AssertKind::Overflow(op, a, b) => format!("{} {:?} {}", opd(a), op, opd(b)),
+            mir::AssertKind::OverflowNeg(a) => format!("neg {}", opd(a)),
+            mir::AssertKind::DivisionByZero(a) | mir::AssertKind::RemainderByZero(a) => format!("divisor-of {}", opd(a)),
+            mir::AssertKind::BoundsCheck { len, .. } => {
+                // the container whose length is checked: look for the definition of `len` in this block
+                if let Operand::Constant(_) = len {
+                    return format!("array len {}", opd(len));
+                }
+                if let Operand::Copy(p) | Operand::Move(p) = len {
+                    for st in data.statements.iter().rev() {
+                        if let StatementKind::Assign(b) = &st.kind {
+                            if b.0.local == p.local && b.0.projection.is_empty() {
+                                return match &b.1 {
+                                    Rvalue::UnaryOp(mir::UnOp::PtrMetadata, o) => format!("index {:?}", o.ty(&bi.body, self.tcx)),
+                                    other => format!("index {:?}", other.ty(&bi.body, self.tcx)),
+                                };
+                            }
+                        }
+                    }
+                }
+                "index".to_string()
+            }
+            other => format!("{:?}", std::mem::discriminant(other)),
         }
     }
 
@@ -674,10 +713,10 @@ impl<'tcx> Interp<'tcx> {
                 s.roots.insert(root);
             }
         } else if !ok {
-            self.sites.insert(key.to_string(), Site { inst: self.stack.last().map(|b| b.name.clone()).unwrap_or_default(), kind: "model".into(), msg: String::new(),
+            self.sites.insert(key.to_string(), Site { inst: self.stack.last().map(|b| b.name.clone()).unwrap_or_default(), kind: "model".into(), msg: String::new(), shape: String::new(),
                 site: String::new(), visits: 1, violated: true, witness, roots: [root].into_iter().collect(), ctxs: BTreeSet::new() });
         } else {
-            self.sites.insert(key.to_string(), Site { inst: self.stack.last().map(|b| b.name.clone()).unwrap_or_default(), kind: "model".into(), msg: String::new(),
+            self.sites.insert(key.to_string(), Site { inst: self.stack.last().map(|b| b.name.clone()).unwrap_or_default(), kind: "model".into(), msg: String::new(), shape: String::new(),
                 site: String::new(), visits: 1, violated: false, witness: String::new(), roots: BTreeSet::new(), ctxs: BTreeSet::new() });
         }
     }
